@@ -235,3 +235,69 @@ Theorem C03_generic_greedy_QI : forall (p : profile) (rt : Q -> Q) (meth : metho
     /\ (requires_sorting meth = false -> heights d' = map (k_rt (kops_of (QI rt) meth)) (map (@s_dis qi) raw)).
 Proof. exact generic_QI_greedy. Qed.
 Print Assumptions C03_generic_greedy_QI.
+
+(* ---- Method::Single through EVERY entry point (mst and nnchain are not greedy step by step,
+   but their RETURNED dendrogram is): replaying the returned steps in order - current clusters
+   = classes of the label function labi after j steps - when step j is applied no two
+   observations in different current clusters are closer than its height (ties included), and
+   with pairwise distinct heights the height is realised by a pair between the two merged
+   clusters, i.e. the merged pair is a closest pair at exactly its single-linkage
+   dissimilarity ---- *)
+Require Import KV.Model.Linkage KV.Proofs.RelabelWF KV.Proofs.CriteriaRun KV.Proofs.AgreeSingle KV.Proofs.SingleReplay.
+Local Close Scope Q_scope.
+
+Theorem C03_single_replay_greedy : forall (T : Type) (F : fops T) (p : profile),
+  (forall a, f_ltb F a a = false) ->
+  (forall a b c, f_ltb F a b = true -> f_ltb F b c = true -> f_ltb F a c = true) ->
+  (forall a b c, f_ltb F a b = false -> f_ltb F b c = false -> f_ltb F a c = false) ->
+  (forall a b, f_eqb F a b = true -> f_ltb F b a = false) ->
+  (forall a, f_eqb F a a = true) ->
+  forall (a : algo) s d (m : list T) n s' d' m' M0, (n < two32)%N ->
+  run_with F p a Single s d m n = Ok (s', d', m') ->
+  prologue p m n = Ok M0 -> 1 <= m_obs M0 ->
+  Forall (fun v => f_ltb F v (f_inf F) = true) m ->
+  (forall j t, nth_error (d_steps d') j = Some t ->
+     forall x y, x < m_obs M0 -> y < m_obs M0 ->
+       labi (m_obs M0) (d_steps d') j x <> labi (m_obs M0) (d_steps d') j y ->
+       f_ltb F (cell_or (f_inf F) M0 x y) (s_dis t) = false)
+  /\ (strictly F (heights d') ->
+      forall j t, nth_error (d_steps d') j = Some t ->
+      exists x y, x < m_obs M0 /\ y < m_obs M0
+        /\ labi (m_obs M0) (d_steps d') j x = s_c1 t /\ labi (m_obs M0) (d_steps d') j y = s_c2 t
+        /\ f_ltb F (s_dis t) (cell_or (f_inf F) M0 x y) = false).
+Proof. exact single_replay_greedy. Qed.
+Print Assumptions C03_single_replay_greedy.
+
+Theorem C03_single_replay_greedy_f64 : forall (p : profile) (a : algo) s d (m : list PrimFloat.float) (n : N) s' d' m' M0,
+  (n < two32)%N ->
+  run_with F64 p a Single s d m n = Ok (s', d', m') ->
+  prologue p m n = Ok M0 -> 1 <= m_obs M0 ->
+  Forall (fun v => PrimFloat.ltb v PrimFloat.infinity = true) m ->
+  (forall j t, nth_error (d_steps d') j = Some t ->
+     forall x y, x < m_obs M0 -> y < m_obs M0 ->
+       labi (m_obs M0) (d_steps d') j x <> labi (m_obs M0) (d_steps d') j y ->
+       PrimFloat.ltb (MstPrim.dcell (kops_of F64 Single) M0 x y) (s_dis t) = false)
+  /\ (strictly F64 (heights d') ->
+      forall j t, nth_error (d_steps d') j = Some t ->
+      exists x y, x < m_obs M0 /\ y < m_obs M0
+        /\ labi (m_obs M0) (d_steps d') j x = s_c1 t /\ labi (m_obs M0) (d_steps d') j y = s_c2 t
+        /\ PrimFloat.ltb (s_dis t) (MstPrim.dcell (kops_of F64 Single) M0 x y) = false).
+Proof. exact single_replay_greedy_f64. Qed.
+Print Assumptions C03_single_replay_greedy_f64.
+
+Theorem C03_single_replay_greedy_f32 : forall (p : profile) (a : algo) s d (m : list f32) (n : N) s' d' m' M0,
+  (n < two32)%N ->
+  run_with F32 p a Single s d m n = Ok (s', d', m') ->
+  prologue p m n = Ok M0 -> 1 <= m_obs M0 ->
+  Forall (fun v => f_ltb F32 v (f_inf F32) = true) m ->
+  (forall j t, nth_error (d_steps d') j = Some t ->
+     forall x y, x < m_obs M0 -> y < m_obs M0 ->
+       labi (m_obs M0) (d_steps d') j x <> labi (m_obs M0) (d_steps d') j y ->
+       f_ltb F32 (MstPrim.dcell (kops_of F32 Single) M0 x y) (s_dis t) = false)
+  /\ (strictly F32 (heights d') ->
+      forall j t, nth_error (d_steps d') j = Some t ->
+      exists x y, x < m_obs M0 /\ y < m_obs M0
+        /\ labi (m_obs M0) (d_steps d') j x = s_c1 t /\ labi (m_obs M0) (d_steps d') j y = s_c2 t
+        /\ f_ltb F32 (s_dis t) (MstPrim.dcell (kops_of F32 Single) M0 x y) = false).
+Proof. exact single_replay_greedy_f32. Qed.
+Print Assumptions C03_single_replay_greedy_f32.
